@@ -29,7 +29,22 @@ def gen_value(rng, depth=0):
     return d
 
 
+# registered authenticator extension outputs, as they look at registration and at authentication (WebAuthn / CTAP 2.1)
+KNOWN_EXT = {
+    "credProtect": [1, 2, 3], "hmac-secret": [True, False, bytes(32), bytes(64)], "credBlob": [True, False, b"", b"blob-bytes"], "minPinLength": [4, 6, 63],
+    "uvm": [[[2, 4, 2]], [[1, 1, 1]], [[2, 4, 2], [4, 4, 2]], [[0x200, 1, 1]]], "largeBlobKey": [bytes(32)], "thirdPartyPayment": [True],
+    "hmac-secret-mc": [bytes(48)], "prf": [{"first": bytes(32)}], "appid": [True], "txAuthSimple": ["ok"], "devicePubKey": [{"dpk": bytes(77), "sig": bytes(70)}],
+}
+
+
+def known_ext(rng, n=None):
+    names = list(KNOWN_EXT)
+    return {k: rng.choice(KNOWN_EXT[k]) for k in rng.sample(names, n if n is not None else rng.choice([1, 1, 2, 3]))}
+
+
 def gen_ext(rng):
+    if rng.random() < 0.5:
+        return known_ext(rng)
     d = {}
     for _ in range(rng.choice([0, 1, 2, 4])):
         d[rng.choice(["credProtect", "hmac-secret", "credBlob", "minPinLength", "x" * 30])] = gen_value(rng, 1)
@@ -91,6 +106,7 @@ def hostile_cbor():
         b"\x81" * 1500 + b"\x00",                   # deep arrays
         b"\xa1" * 1500 + b"\x00",                   # deep maps-as-keys
         b"\xc6" * 1500 + b"\x00",                   # deep tags
+        b"\xc6" * 400 + b"\x00", b"\xc6" * 760 + b"\x00", b"\xc6" * 1000 + b"\x00", b"\xc6" * 1400 + b"\x00", b"\xd8\x40" * 900 + b"\x00",   # depths the decoder takes but the encoder may not
         b"\x81" * 800 + b"\x00",
         b"\xa1" * 900 + b"\x00" + b"\x00" * 900,   # maps nested as keys: decodes, fails to re-encode
         b"\x9f" * 300 + b"\xff" * 300,              # indefinite arrays
